@@ -27,7 +27,7 @@ class C18(Profile):
     owns_registries = True
     tiers = {'quick': 1500, 'thorough': 120000}
     wall_cap = {'quick': 1200, 'thorough': 6 * 3600}
-    probes = ['newest_on_last_member', 'newest_on_first_member', 'same_version_on_two_members',
+    probes = ['filter_attached_through_environment', 'bare_composite_after_environment_filter', 'newest_on_last_member', 'newest_on_first_member', 'same_version_on_two_members',
               'relationship_and_endpoint_on_different_members', 'nested_composite', 'self_loop', 'detached_member_excluded',
               'composite_filter_attached', 'related_to_nonempty', 'creator_found', 'creator_missing', 'env_facade',
               'navigation_by_id_string', 'relationships_nonempty', 'source_only', 'target_only', 'static_memory_source', 'dict_kept_versions_federated', 'nested_composite_with_own_filter']
@@ -42,7 +42,7 @@ class C18(Profile):
     components = dict(COMPONENTS_COMMON,
                       real=COMPONENTS_COMMON['real'] + ['stix2.datastore (CompositeDataSource, DataSource navigation)', 'stix2.environment',
                                                         'stix2.datastore.memory', 'stix2.datastore.filesystem', 'tmpfs'],
-                      simulated=COMPONENTS_COMMON['simulated'] + ['member attachment order / placement of versions', 'readdir order'])
+                      simulated=COMPONENTS_COMMON['simulated'] + ['member attachment order / placement of versions', 'readdir order', 'file time stamps (disk-owned clock, plan-chosen granularity)'])
 
     # ------------------------------------------------------------------ generation
     def generate(self, rng, index, tier):
@@ -50,7 +50,7 @@ class C18(Profile):
         members = [rng.choice(['mem', 'mem', 'fs', 'fs', 'memsrc']) for _ in range(nm)]
         if 'memsrc' in members and all(m == 'memsrc' for m in members):
             members[0] = 'mem'
-        cfg = {'members': members, 'm_allow_custom': True, 'fs_allow_custom': True, 'bundlify': rng.random() < 0.1}
+        cfg = {'members': members, 'm_allow_custom': True, 'fs_allow_custom': True, 'bundlify': rng.random() < 0.1, 'mtime_gran': rng.choice([1, 1, 4, 0]), 'early_parse': rng.random() < 0.3}
         n_ident = rng.randrange(1, 4)
         n_sdo = rng.randrange(2, 7)
         pool = SW.gen_pool(rng, index, n_ident, 3, [('identity', 1)]) + \
@@ -292,6 +292,7 @@ class C18(Profile):
             cds.add_data_sources([self.source_of(m) for m in order])
         if f == 'env_src':
             world.probe('env_facade')
+            self.bare_cds = cds        # the caller's own composite: what is attached to an environment built on it is not attached to IT
             return s.Environment(factory=s.ObjectFactory(), source=cds), order
         return cds, order
 
@@ -299,6 +300,7 @@ class C18(Profile):
         s = self.stix2
         pool = sw.pool
         self.inner_members = set()
+        self.bare_cds = None
         target, mems = self.facade(world, op)
         if target is None:
             world.stat('op_skipped')
@@ -317,7 +319,14 @@ class C18(Profile):
         if cf and hasattr(target, 'filters') or (cf and hasattr(getattr(target, 'source', None), 'filters')):
             flt_target = target.filters if hasattr(target, 'filters') else target.source.filters
             fobj = s.Filter(cf[0], cf[1], cf[2])
-            if fobj not in list(flt_target):
+            if self.bare_cds is not None and op.get('k', 0) % 2:
+                # through the environment's own API; there is no detach, the environment lives for this op only
+                a = call(target.add_filter, fobj)
+                if not a.ok:
+                    raise Violation('attach', 'C18.attach/environment-add_filter-raised', dict(filter=repr(fobj), outcome=a.tag))
+                fobj = None
+                world.probe('filter_attached_through_environment')
+            elif fobj not in list(flt_target):
                 if op.get('j', 0) % 4 == 3:
                     # history: attached, detached and attached again before the read
                     call(flt_target.add, fobj)
@@ -332,6 +341,10 @@ class C18(Profile):
         failed = True
         try:
             self.do_read(sw, world, op, kind, target, mems, union, sid, e, k, j, ctrip)
+            if self.bare_cds is not None and ctrip and kind in ('get', 'all_versions', 'query') and fobj is None and not self.inner_members:
+                # the composite the environment was built on never had a filter attached: it still answers as the plain union
+                world.probe('bare_composite_after_environment_filter')
+                self.do_read(sw, world, dict(op, facade='cds-under-filtered-env'), kind, self.bare_cds, mems, union, sid, e, k, j, [])
             failed = False
         finally:
             if flt_target is not None and fobj is not None:
